@@ -1,4 +1,5 @@
 use crate::util::*;
+pub mod matching;
 pub mod notation;
 pub mod tables;
 
@@ -15,6 +16,8 @@ pub fn run(unit: &str, ctx: &Ctx, rng: &mut Rng, o: &mut Out) -> bool {
     "substring" => notation::substring(ctx, rng, o),
     "template_scan" => notation::template_scan(ctx, rng, o),
     "c20_oracle" => notation::oracle(ctx, rng, o),
+    "cut" => matching::cut_unit(ctx, rng, o),
+    "near_miss" => matching::near_miss_unit(ctx, rng, o),
     _ => return false,
   }
   true
